@@ -40,8 +40,34 @@ type Process struct {
 }
 
 type ProcessState struct {
-	code int
+	code      int
+	pid       int
+	signalled bool
+	sig       int
 }
+
+// the rest of os.ProcessState's surface, so that changes of the system under test that use
+// it still build against the facade
+func (p *ProcessState) Exited() bool  { return p != nil && !p.signalled }
+func (p *ProcessState) Success() bool { return p != nil && !p.signalled && p.code == 0 }
+func (p *ProcessState) Pid() int {
+	if p == nil {
+		return -1
+	}
+	return p.pid
+}
+func (p *ProcessState) String() string {
+	if p == nil {
+		return "<nil>"
+	}
+	if p.signalled {
+		return fmt.Sprintf("signal: %d", p.sig)
+	}
+	return fmt.Sprintf("exit status %d", p.code)
+}
+func (p *ProcessState) Sys() any                  { return nil }
+func (p *ProcessState) SystemTime() time.Duration { return 0 }
+func (p *ProcessState) UserTime() time.Duration   { return 0 }
 
 func (p *ProcessState) ExitCode() int {
 	if p == nil {
@@ -199,7 +225,7 @@ func (c *Cmd) Wait() error {
 	}
 	W.enter()
 	p.Reaped = true
-	c.ProcessState = &ProcessState{code: p.ExitCode}
+	c.ProcessState = &ProcessState{code: p.ExitCode, pid: p.Pid, signalled: p.Signalled, sig: p.KilledBy}
 	// Wait closes the parent's ends of the pipes after seeing the command exit
 	for _, pp := range []*Pipe{c.stdoutPipe, c.stderrPipe} {
 		if pp != nil {
@@ -253,5 +279,17 @@ func (p *Process) Signal(sig os.Signal) error {
 }
 
 func (p *Process) Kill() error { return p.Signal(syscall.SIGKILL) }
+
+// Release mirrors os.Process.Release (nothing to release here).
+func (p *Process) Release() error { return nil }
+
+// String mirrors exec.Cmd.String.
+func (c *Cmd) String() string { return strings.Join(append([]string{c.Path}, c.Args[1:]...), " ") }
+
+// CombinedOutput mirrors exec.Cmd.CombinedOutput.
+func (c *Cmd) CombinedOutput() ([]byte, error) { return c.Output() }
+
+// Environ mirrors exec.Cmd.Environ.
+func (c *Cmd) Environ() []string { return append([]string(nil), c.Env...) }
 
 var _ = time.Second
